@@ -1,6 +1,13 @@
 ---------------------------- MODULE TraceFmt ----------------------------
-(* Layer P acceptor for C09/C10: the grammar pushdown machine (depth, line scopes) in product
-   with a two-cursor alignment of the formatter's input and output. *)
+(* Layer P acceptor for C09 / C10: the grammar pushdown machine (block depth, line scopes) in
+   product with a two-cursor alignment of the formatter's input and output.
+   Trace record: {src, out, width, deriv, statsIn, statsOut, again, variants: [out...], focus}.
+     focus "C09": F2 tokens and comments identical (comments modulo whitespace), in order;
+                  F3 line scopes kept; F4 stats equal
+     focus "C10": G1 indentation = width * depth for every line starting with a code token,
+                  G2 no trailing whitespace, G3 at most one blank line, G4 no blank line at the
+                  end, G5 layout-independent (variants), G6 idempotent (again)
+   A tree that does not derive the input is verdict "ood-parse" (C08's business). *)
 EXTENDS LuaSyntax, Json, IOUtils, TLCExt
 LX == INSTANCE P8Lex
 Traces == JsonDeserialize(IOEnv.TRACE_FILE)
@@ -14,121 +21,89 @@ Src == T.src
 Out == T.out
 Wd == T.width
 Der == T.deriv
+C9 == T.focus = "C09"
+C10 == T.focus = "C10"
 Init == /\ tid \in 1..Len(Traces) /\ stack = <<"chunk">> /\ di = 1 /\ depth = 0
         /\ scopeLineI = <<>> /\ scopeLineO = <<>> /\ i = 1 /\ o = 1 /\ lineI = 0 /\ lineO = 0
         /\ atBol = TRUE /\ indent = 0 /\ tabbed = FALSE /\ lastSp = FALSE /\ nlRun = 0 /\ seenAny = FALSE
         /\ verdict = "run"
-Keep(vs) == UNCHANGED vs
 Stop(v) == verdict' = v /\ UNCHANGED <<tid, stack, di, depth, scopeLineI, scopeLineO, i, o, lineI, lineO, atBol, indent, tabbed, lastSp, nlRun, seenAny>>
 NlIn(s, a, e) == Cardinality({j \in a..(e-1) : s[j] = 10})
 Squeeze(w) == SelectSeq(w, LAMBDA c : c \notin {32, 9, 10, 13})
 TokI == IF i <= Len(Src) THEN LX!NextTok(Src, i) ELSE LX!Tok("eof", i)
 TokO == IF o <= Len(Out) THEN LX!NextTok(Out, o) ELSE LX!Tok("eof", o)
-\* map a lexical token to the grammar's token record
-GTok(s, a, t) == [k |-> t.k, t |-> IF t.k \in {"kw", "sym"} THEN SubSeq(s, a, t.e - 1) ELSE <<>>]
-Spell(term) == \* terminal "k:do" / "s:(" -> we compare via class membership below
-  term
-\* does lexical token (s,a,t) match grammar terminal h ?
-RECURSIVE StrToSeq(_)
-Chars == [c \in {"a","b","c","d","e","f","g","h","i","j","k","l","m","n","o","p","q","r","s","t","u","v","w","x","y","z",
-                 "&","|","^","<",">","\\","=","~","!",".","+","-","*","/","%","#","@","$","(",")","{","}","[","]",";",":",","} |-> 0]
-\* spelling table for operators/keywords: string -> byte sequence (only those used by the grammar)
-SeqOf == [ x \in {"do","end","while","repeat","until","if","then","elseif","else","for","in","function","local",
-                  "goto","return","break","nil","false","true","and","or","not",
-                  "&","|","^^","<<",">>",">>>","<<>",">><","\\","<",">","<=",">=","~=","!=","==","..","+","-","*","/","%","^",
-                  "#","~","@","$","=","+=","-=","*=","/=","%=","..=","(",")","{","}","[","]",";",":",",",".","..."} |->
-  CASE x = "do" -> <<100,111>> [] x = "end" -> <<101,110,100>> [] x = "while" -> <<119,104,105,108,101>>
-    [] x = "repeat" -> <<114,101,112,101,97,116>> [] x = "until" -> <<117,110,116,105,108>> [] x = "if" -> <<105,102>>
-    [] x = "then" -> <<116,104,101,110>> [] x = "elseif" -> <<101,108,115,101,105,102>> [] x = "else" -> <<101,108,115,101>>
-    [] x = "for" -> <<102,111,114>> [] x = "in" -> <<105,110>> [] x = "function" -> <<102,117,110,99,116,105,111,110>>
-    [] x = "local" -> <<108,111,99,97,108>> [] x = "goto" -> <<103,111,116,111>> [] x = "return" -> <<114,101,116,117,114,110>>
-    [] x = "break" -> <<98,114,101,97,107>> [] x = "nil" -> <<110,105,108>> [] x = "false" -> <<102,97,108,115,101>>
-    [] x = "true" -> <<116,114,117,101>> [] x = "and" -> <<97,110,100>> [] x = "or" -> <<111,114>> [] x = "not" -> <<110,111,116>>
-    [] x = "&" -> <<38>> [] x = "|" -> <<124>> [] x = "^^" -> <<94,94>> [] x = "<<" -> <<60,60>> [] x = ">>" -> <<62,62>>
-    [] x = ">>>" -> <<62,62,62>> [] x = "<<>" -> <<60,60,62>> [] x = ">><" -> <<62,62,60>> [] x = "\\" -> <<92>>
-    [] x = "<" -> <<60>> [] x = ">" -> <<62>> [] x = "<=" -> <<60,61>> [] x = ">=" -> <<62,61>> [] x = "~=" -> <<126,61>>
-    [] x = "!=" -> <<33,61>> [] x = "==" -> <<61,61>> [] x = ".." -> <<46,46>> [] x = "+" -> <<43>> [] x = "-" -> <<45>>
-    [] x = "*" -> <<42>> [] x = "/" -> <<47>> [] x = "%" -> <<37>> [] x = "^" -> <<94>> [] x = "#" -> <<35>> [] x = "~" -> <<126>>
-    [] x = "@" -> <<64>> [] x = "$" -> <<36>> [] x = "=" -> <<61>> [] x = "+=" -> <<43,61>> [] x = "-=" -> <<45,61>>
-    [] x = "*=" -> <<42,61>> [] x = "/=" -> <<47,61>> [] x = "%=" -> <<37,61>> [] x = "..=" -> <<46,46,61>>
-    [] x = "(" -> <<40>> [] x = ")" -> <<41>> [] x = "{" -> <<123>> [] x = "}" -> <<125>> [] x = "[" -> <<91>> [] x = "]" -> <<93>>
-    [] x = ";" -> <<59>> [] x = ":" -> <<58>> [] x = "," -> <<44>> [] x = "." -> <<46>> [] x = "..." -> <<46,46,46>> ]
-StrToSeq(x) == SeqOf[x]
-SpellSet(S) == {SeqOf[x] : x \in S}
-KwTerm == [x \in {"do","end","while","repeat","until","if","then","elseif","else","for","in","function","local","goto","return","break","nil","false","true"} |-> "k:" \o x]
-LexMatches(h, s, a, t) ==
-  LET w == SubSeq(s, a, t.e - 1) IN
-  CASE h = "Name" -> t.k = "name"
-    [] h = "Number" -> t.k = "num"
-    [] h = "String" -> t.k = "str"
-    [] h = "Label" -> t.k = "label"
-    [] h = "binop" -> t.k \in {"sym", "kw"} /\ w \in SpellSet(BinOps)
-    [] h = "unop" -> t.k \in {"sym", "kw"} /\ w \in SpellSet(UnOps)
-    [] h = "assignop" -> t.k = "sym" /\ w \in SpellSet(AssignOps)
-    [] h = "fieldsep" -> t.k = "sym" /\ w \in {<<44>>, <<59>>}
-    [] OTHER -> \/ (t.k = "kw" /\ \E x \in DOMAIN KwTerm : KwTerm[x] = h /\ SeqOf[x] = w)
-                \/ (t.k = "sym" /\ \E x \in DOMAIN SeqOf : ("s:" \o x) = h /\ SeqOf[x] = w)
 IsSemiTok(s, a, t) == t.k = "sym" /\ SubSeq(s, a, t.e - 1) = <<59>>
 \* consume one trivia token (sp/nl) of the input
 EatI(t) == /\ i' = t.e /\ lineI' = lineI + NlIn(Src, i, t.e)
            /\ UNCHANGED <<tid, stack, di, depth, scopeLineI, scopeLineO, o, lineO, atBol, indent, tabbed, lastSp, nlRun, seenAny, verdict>>
 \* consume one trivia token (sp/nl) of the output, observing layout (C10 G2..G4)
 EatO(t) ==
-  IF t.k = "nl" /\ lastSp THEN Stop("trailing-space")
-  ELSE IF t.k = "nl" /\ seenAny /\ nlRun >= 2 THEN Stop("blank-lines")
+  IF C10 /\ t.k = "nl" /\ lastSp THEN Stop("trailing-space")
+  ELSE IF C10 /\ t.k = "nl" /\ seenAny /\ nlRun >= 2 THEN Stop("blank-lines")
   ELSE /\ o' = t.e /\ lineO' = lineO + NlIn(Out, o, t.e)
        /\ IF t.k = "nl" THEN /\ atBol' = TRUE /\ indent' = 0 /\ tabbed' = FALSE /\ lastSp' = FALSE /\ nlRun' = nlRun + 1
           ELSE /\ atBol' = atBol /\ indent' = (IF atBol THEN t.e - o ELSE indent)
                /\ tabbed' = (atBol /\ \E j \in o..(t.e-1) : Out[j] = 9) /\ lastSp' = TRUE /\ nlRun' = nlRun
        /\ UNCHANGED <<tid, stack, di, depth, scopeLineI, scopeLineO, i, lineI, seenAny, verdict>>
+\* a comment ends in whitespace when its last byte is a space / tab / CR (line comment before the newline)
+ComTrailSp(s, a, e) == s[e - 1] \in {32, 9, 13}
 \* both cursors at a non-sp/nl token: comments are aligned first
 AlignComment(ti, to) ==
-  IF to.k # "com" THEN Stop("comment-lost")
-  ELSE IF Squeeze(SubSeq(Src, i, ti.e - 1)) # Squeeze(SubSeq(Out, o, to.e - 1)) THEN Stop("comment-changed")
+  IF to.k # "com" THEN (IF C9 THEN Stop("comment-lost") ELSE Stop("ood-c09"))
+  ELSE IF Squeeze(SubSeq(Src, i, ti.e - 1)) # Squeeze(SubSeq(Out, o, to.e - 1)) THEN (IF C9 THEN Stop("comment-changed") ELSE Stop("ood-c09"))
   ELSE /\ i' = ti.e /\ o' = to.e /\ lineI' = lineI + NlIn(Src, i, ti.e) /\ lineO' = lineO + NlIn(Out, o, to.e)
-       /\ atBol' = FALSE /\ lastSp' = FALSE /\ nlRun' = 0 /\ seenAny' = TRUE
+       /\ atBol' = FALSE /\ lastSp' = ComTrailSp(Out, o, to.e) /\ nlRun' = 0 /\ seenAny' = TRUE
        /\ UNCHANGED <<tid, stack, di, depth, scopeLineI, scopeLineO, indent, tabbed, verdict>>
 \* match the pair of significant tokens against grammar terminal h
 Shift(h, ti, to) ==
-  IF ~LexMatches(h, Src, i, ti) THEN Stop("ood-parse")      \* picotool's tree does not derive the input: C08's business
-  ELSE IF to.k # ti.k \/ SubSeq(Src, i, ti.e - 1) # SubSeq(Out, o, to.e - 1) THEN Stop("token-changed")
+  IF ~LexMatches(h, ti.k, SubSeq(Src, i, ti.e - 1)) THEN Stop("ood-parse")      \* picotool's tree does not derive the input: C08's business
   ELSE IF scopeLineI # <<>> /\ lineI # Head(scopeLineI) THEN Stop("ood-parse")
-  ELSE IF scopeLineO # <<>> /\ lineO # Head(scopeLineO) THEN Stop("scope-split")
-  ELSE IF atBol /\ (tabbed \/ indent # Wd * depth) THEN Stop("indent")
+  ELSE IF to.k # ti.k \/ SubSeq(Src, i, ti.e - 1) # SubSeq(Out, o, to.e - 1) THEN (IF C9 THEN Stop("token-changed") ELSE Stop("ood-c09"))
+  ELSE IF C9 /\ scopeLineO # <<>> /\ lineO # Head(scopeLineO) THEN Stop("scope-split")
+  ELSE IF C10 /\ atBol /\ (tabbed \/ indent # Wd * depth) THEN Stop("indent")
   ELSE /\ i' = ti.e /\ o' = to.e /\ lineI' = lineI + NlIn(Src, i, ti.e) /\ lineO' = lineO + NlIn(Out, o, to.e)
        /\ atBol' = FALSE /\ lastSp' = FALSE /\ nlRun' = 0 /\ seenAny' = TRUE /\ stack' = Tail(stack)
        /\ UNCHANGED <<tid, di, depth, scopeLineI, scopeLineO, indent, tabbed, verdict>>
+Finish ==
+  IF C10 /\ lastSp THEN Stop("trailing-space")
+  ELSE IF C10 /\ nlRun > 1 THEN Stop("blank-at-end")
+  ELSE IF C9 /\ T.statsIn # T.statsOut THEN Stop("stats")
+  ELSE IF C10 /\ T.again # Out THEN Stop("not-idempotent")
+  ELSE IF C10 /\ \E v \in 1..Len(T.variants) : T.variants[v] # Out THEN Stop("layout-dependent")
+  ELSE Stop("ok")
 Step ==
   /\ verdict = "run"
   /\ LET ti == TokI to == TokO IN
-     IF ti.k \in LX!Bad THEN Stop("ood-input")
-     ELSE IF to.k \in LX!Bad THEN Stop("lex-out")
+     IF ti.k \in LX!Bad THEN Stop("ood")
+     ELSE IF to.k \in LX!Bad THEN (IF C9 THEN Stop("lex-out") ELSE Stop("ood-c09"))
      ELSE IF ti.k \in {"sp", "nl"} THEN EatI(ti)
      ELSE IF to.k \in {"sp", "nl"} THEN EatO(to)
      ELSE IF ti.k = "com" THEN AlignComment(ti, to)
-     ELSE IF to.k = "com" THEN Stop("comment-added")
+     ELSE IF to.k = "com" THEN (IF C9 THEN Stop("comment-added") ELSE Stop("ood-c09"))
      ELSE IF stack = <<>> THEN
-        IF ti.k = "eof" /\ to.k = "eof" /\ di = Len(Der) + 1 THEN
-            IF lastSp THEN Stop("trailing-space") ELSE IF nlRun > 1 THEN Stop("blank-at-end")
-            ELSE IF T.statsIn # T.statsOut THEN Stop("stats") ELSE Stop("ok")
-        ELSE IF ti.k = "eof" THEN Stop("code-added") ELSE IF to.k = "eof" THEN Stop("code-dropped") ELSE Stop("ood-parse")
+        IF ti.k = "eof" /\ to.k = "eof" /\ di = Len(Der) + 1 THEN Finish
+        ELSE IF ti.k = "eof" THEN (IF C9 THEN Stop("code-added") ELSE Stop("ood-c09"))
+        ELSE IF to.k = "eof" /\ di = Len(Der) + 1 THEN Stop("ood-parse")        \* input not consumed by the tree
+        ELSE Stop("ood-parse")
      ELSE LET h == Head(stack) IN
        IF h = "+" THEN depth' = depth + 1 /\ stack' = Tail(stack) /\ UNCHANGED <<tid, di, scopeLineI, scopeLineO, i, o, lineI, lineO, atBol, indent, tabbed, lastSp, nlRun, seenAny, verdict>>
        ELSE IF h = "-" THEN depth' = depth - 1 /\ stack' = Tail(stack) /\ UNCHANGED <<tid, di, scopeLineI, scopeLineO, i, o, lineI, lineO, atBol, indent, tabbed, lastSp, nlRun, seenAny, verdict>>
        ELSE IF h = "<" THEN scopeLineI' = <<lineI>> \o scopeLineI /\ scopeLineO' = <<lineO>> \o scopeLineO /\ stack' = Tail(stack)
                             /\ UNCHANGED <<tid, di, depth, i, o, lineI, lineO, atBol, indent, tabbed, lastSp, nlRun, seenAny, verdict>>
        ELSE IF h = ">" THEN
-            IF ti.k # "eof" /\ Len(scopeLineO) = 1 /\ lineO = Head(scopeLineO) /\ to.k # "eof" THEN Stop("scope-join")
+            IF C9 /\ ti.k # "eof" /\ Len(scopeLineO) = 1 /\ lineO = Head(scopeLineO) /\ to.k # "eof" THEN Stop("scope-join")
             ELSE scopeLineI' = Tail(scopeLineI) /\ scopeLineO' = Tail(scopeLineO) /\ stack' = Tail(stack)
                  /\ UNCHANGED <<tid, di, depth, i, o, lineI, lineO, atBol, indent, tabbed, lastSp, nlRun, seenAny, verdict>>
        ELSE IF h = "SB" THEN
             IF ti.k # "eof" /\ IsSemiTok(Src, i, ti) THEN
-                 IF to.k = "eof" \/ ~IsSemiTok(Out, o, to) THEN Stop("token-changed")
+                 IF to.k = "eof" \/ ~IsSemiTok(Out, o, to) THEN (IF C9 THEN Stop("token-changed") ELSE Stop("ood-c09"))
                  ELSE /\ i' = ti.e /\ o' = to.e /\ atBol' = FALSE /\ lastSp' = FALSE /\ nlRun' = 0 /\ seenAny' = TRUE
                       /\ UNCHANGED <<tid, stack, di, depth, scopeLineI, scopeLineO, lineI, lineO, indent, tabbed, verdict>>
             ELSE stack' = Tail(stack) /\ UNCHANGED <<tid, di, depth, scopeLineI, scopeLineO, i, o, lineI, lineO, atBol, indent, tabbed, lastSp, nlRun, seenAny, verdict>>
        ELSE IF IsTerm(h) THEN
-            IF ti.k = "eof" THEN Stop("ood-parse") ELSE IF to.k = "eof" THEN Stop("code-dropped") ELSE Shift(h, ti, to)
+            IF ti.k = "eof" THEN Stop("ood-parse")
+            ELSE IF to.k = "eof" THEN (IF C9 THEN Stop("code-dropped") ELSE Stop("ood-c09"))
+            ELSE Shift(h, ti, to)
        ELSE IF di <= Len(Der) /\ Der[di] \in PN /\ P[Der[di]].l = h
             THEN di' = di + 1 /\ stack' = P[Der[di]].r \o Tail(stack)
                  /\ UNCHANGED <<tid, depth, scopeLineI, scopeLineO, i, o, lineI, lineO, atBol, indent, tabbed, lastSp, nlRun, seenAny, verdict>>
